@@ -521,6 +521,30 @@ func (x *c17Run) keys(seed int64, thorough bool) {
 		}
 		x.tick(true)
 	}
+	// several serialisations alive at the same time: what was handed out for one key must not change when another
+	// key is serialised or fingerprinted afterwards
+	{
+		var pubs, privs, fps [][]byte
+		for _, k := range keys {
+			pubs = append(pubs, k.PublicKey().serialize())
+			privs = append(privs, k.Serialize())
+			fps = append(fps, k.PublicKey().Fingerprint())
+		}
+		for ki, k := range keys {
+			_, ok, pb := ParsePublicKey(pubs[ki])
+			if !ok || pb.(*DSAPublicKey).Y.Cmp(k.PrivateKey.Y) != 0 {
+				x.bad("pubkey-wire:held", "the serialisation of public key %d (%s), held while the other keys were serialised, no longer parses back to that key", ki, kinds[ki])
+			}
+			_, ok2, pv := ParsePrivateKey(privs[ki])
+			if !ok2 || !c17SameKey(pv.(*DSAPrivateKey), k) {
+				x.bad("privkey-wire:held", "the serialisation of private key %d (%s), held while the other keys were serialised, no longer parses back to that key", ki, kinds[ki])
+			}
+			if !bytes.Equal(fps[ki], refFingerprint(&k.PrivateKey.PublicKey)) {
+				x.bad("fingerprint:held", "the fingerprint of key %d (%s), held while other keys were fingerprinted, changed", ki, kinds[ki])
+			}
+			x.tick(true)
+		}
+	}
 	// account names and protocols
 	nameAlpha := []byte("aZ9@.-_/+ ~:")
 	maxLen := 2
